@@ -183,7 +183,9 @@ Definition defer_monitor_no_orphans (c : defer_case) : bool :=
   let c' := without_orphans c in
   m_groups_once c && m_order c' && m_merge c' && m_errors c && m_has_next c.
 (** ... and additionally modulo the arrival order of nested groups (KEPT FINDING "child before parent") *)
-Definition defer_monitor_modulo_order_no_orphans (c : defer_case) : bool := defer_monitor_modulo_order c.
+Definition defer_monitor_modulo_order_no_orphans (c : defer_case) : bool :=
+  let c' := reordered (without_orphans c) in
+  m_groups_once c && m_errors c && m_has_next c && m_order c' && m_merge c'.
 
 (** C04 on deferred delivery: a failure inside a deferred group is contained exactly as null propagation says -
     judged on the observed payloads with the two kept C13 findings set aside (orphan payloads removed, parents
